@@ -549,7 +549,14 @@ func cmdCheck(spec propSpec, tier string) int {
 	for _, r := range a.violations {
 		v := r.Violation
 		if f := matchOpen(findings, v); f != nil {
-			known[f.Property+" "+f.Signature+": "+f.Summary]++
+			if f.Property == spec.ID {
+				known[f.Property+" "+f.Signature+": "+firstSentence(f.Summary)]++
+			} else {
+				incidental["known:"+f.Property+":"+f.Signature]++
+			}
+			if r.ReplayAt != "" {
+				_ = os.Remove(r.ReplayAt)
+			}
 			continue
 		}
 		if v.Prop == spec.ID {
@@ -604,6 +611,16 @@ func cmdCheck(spec propSpec, tier string) int {
 	n := len(a.results)
 	fmt.Printf("check %s (%s): %d runs, %d violations of %s, %d incidental, %d known; %.0fs\n", spec.ID, tier, n, len(own), spec.ID, len(incidental), len(known), time.Since(start).Seconds())
 	return exit
+}
+
+func firstSentence(s string) string {
+	if i := strings.Index(s, ";"); i > 0 {
+		s = s[:i]
+	}
+	if len(s) > 300 {
+		s = s[:300]
+	}
+	return s
 }
 
 func firstLines(s string, n int) string {
